@@ -49,8 +49,9 @@ def fmtG (x : Float) : String :=
     let den := if e ≥ 0 then 1 else 2 ^ (-e).toNat
     -- X = floor(log10 v): largest X with 10^X <= num/den
     let ge10 (X : Int) : Bool := if X ≥ 0 then num ≥ den * pow10N X.toNat else num * pow10N (-X).toNat ≥ den
+    -- start from the binary exponent: log10 v ≈ (e + bits m - 1) · 0.30103, then settle exactly
     let X0 : Int := Id.run do
-      let mut X : Int := 0
+      let mut X : Int := ((e + (Int.ofNat (Nat.log2 m))) * 30103) / 100000
       for _ in [0:700] do
         if ge10 (X + 1) then X := X + 1
         else if !ge10 X then X := X - 1
@@ -481,7 +482,12 @@ def judgeCmd (s : JState) (cmd : String) (impl : List String) : JState × List S
   | "son" :: _ =>
     -- save_object under another name: the file the naming rule promises must have been made
     match nextLine impl with
-    | some (l, r) => (if l == "so 1 made=1" then s else s.flag [s!"save-object-name {cmd} : {l}"], r)
+    | some (l, r) =>
+      -- `so 1 made=1 tmp=<hex> left=0`: the promised file was made, through a temporary of ANOTHER name that is gone
+      match toks l, toks cmd with
+      | ["so", "1", "made=1", tmp, "left=0"], [_, _, _, path] =>
+        (if tmp == "tmp=" ++ path then s.flag [s!"atomic-temporary-is-the-save-file {cmd}"] else s, r)
+      | _, _ => (s.flag [s!"save-object-name {cmd} : {l}"], r)
     | none => (s.flag ["trace missing-so"], [])
   | ["so", z] =>
     match nextLine impl with
@@ -491,9 +497,12 @@ def judgeCmd (s : JState) (cmd : String) (impl : List String) : JState × List S
                 else s.flag [s!"save-object-failed {l}"]
       match nextLine r with
       | some (fl, r2) =>
-        match toks fl with
-        | ["file", hex] => (if l == "so 1" then s1.flag (fileChecks s.live (z != "0") hex) else s1, r2)
-        | _ => (s1, r2)
+        let s2 := match toks fl with
+          | ["file", hex] => if l == "so 1" then s1.flag (fileChecks s.live (z != "0") hex) else s1
+          | _ => s1
+        match r2 with
+        | "tmp-left-behind" :: r3 => (s2.flag [s!"tmp-left-behind after {l}"], r3)
+        | _ => (s2, r2)
       | none => (s1, [])
     | none => (s.flag ["trace missing-so"], [])
   | "wf" :: _ => ({ s with snap := none, hasFile := true }, impl)
@@ -570,8 +579,9 @@ def judgeCmd (s : JState) (cmd : String) (impl : List String) : JState × List S
           if k.startsWith "n=" then acc
           else if st == "old" ∨ st == "new" ∨ st == "both" ∨ (st == "none" ∧ !s.hasFile) then acc
           else acc ++ [s!"atomic-save-file-{st} at-crash-point {k}"]
-        | [_, k, ret, st, _] => -- cf k ret= state tmp=
-          if st == "both" ∨ (ret == "ret=1" ∧ st == "new") ∨ (ret != "ret=1" ∧ (st == "old" ∨ (st == "none" ∧ !s.hasFile))) then acc
+        | [_, k, ret, st, tmpf] => -- cf k ret= state tmp=
+          if tmpf != "tmp=0" then acc ++ [s!"tmp-left-behind after-failure {k} {ret}"]
+          else if st == "both" ∨ (ret == "ret=1" ∧ st == "new") ∨ (ret != "ret=1" ∧ (st == "old" ∨ (st == "none" ∧ !s.hasFile))) then acc
           else acc ++ [s!"atomic-save-file-{st} after-failure {k} {ret}"]
         | [_, k, "childcrash"] => acc ++ [s!"memory childcrash {k}"]
         | [_, _] => acc
